@@ -219,3 +219,137 @@ Print Assumptions C09_delivery_keeps_pending.
 Print Assumptions C09_forwarded_at_most_once.
 Print Assumptions C09_poller_enabled_while_pending.
 Print Assumptions C09_height_poll_ticks_while_pending.
+
+(* ================================================================== the watcher COMPOSED with the event conversion (X2) *)
+(* model.AlphPipeline: the same watcher over events carrying their RAW fields; "malformed" is no longer an abstract flag but the
+   real rejection predicate of the conversion step: the event index is not the WormholeMessage index, or ToWormholeMessage
+   rejects the raw fields (C11's rejection cases). *)
+From Coq Require Import Strings.Byte.
+From WH Require Import lib.Bytes model.Vaa model.AlphPipeline proofs.AlphPipelineProofs.
+From WH Require proofs.AlphConvProofs.
+
+(* C11's rejection cases are `unfit`: a numeric field outside its range - whatever the other fields are -, a wrong field count *)
+Theorem C09_pipeline_rejected_values_are_unfit : forall e f0 s1 s2 f3 f4 s5,
+  x_fields e = [f0; C.VU256 Ty.u256 s1; C.VU256 Ty.u256 s2; f3; f4; C.VU256 Ty.u256 s5] ->
+  ~ AlphConvProofs.fits 16 (C.parse_dec s1) \/ ~ AlphConvProofs.fits 64 (C.parse_dec s2) \/ ~ AlphConvProofs.fits 8 (C.parse_dec s5) -> unfit e.
+Proof. exact rejected_values_unfit. Qed.
+
+Theorem C09_pipeline_wrong_count_is_unfit : forall e, length (x_fields e) <> 6%nat -> unfit e.
+Proof. exact wrong_count_unfit. Qed.
+
+(* ROBUSTNESS with the real rejection predicate: a page with an unfit event anywhere in it is processed to the end (no abort,
+   no panic), the unfit event yields NO held event (hence no message), and every other event of the page is kept exactly as if
+   the unfit one were not there *)
+Theorem C09_pipeline_unfit_event_is_transparent : forall tok a e b idx, unfit e ->
+  xhandle_unconfirmed tok idx (a ++ e :: b) = XHuOk (xkeep_from tok idx a ++ xkeep_from tok (idx + Z.of_nat (length a) + 1) b).
+Proof. exact unfit_event_page. Qed.
+
+(* handleUnconfirmedEvents never aborts a page and never panics, whatever raw fields the events carry and whatever the node says
+   about the tokens they name; every event is judged on its own (its raw fields, the answer about the token it names) *)
+Theorem C09_pipeline_page_never_aborts : forall tok evs idx, xhandle_unconfirmed tok idx evs = XHuOk (xkeep_from tok idx evs).
+Proof. exact xhandle_unconfirmed_spec. Qed.
+
+Theorem C09_pipeline_events_judged_independently : forall tok a e b idx,
+  xkeep_from tok idx (a ++ e :: b) =
+  xkeep_from tok idx a ++ xkeep1 (tok (idx + Z.of_nat (length a))) e ++ xkeep_from tok (idx + Z.of_nat (length a) + 1) b.
+Proof. exact xkeep_from_one_event. Qed.
+
+(* what is kept: a fitting non-attestation event, with exactly the conversion of its raw fields, whatever its sender; a fitting
+   attestation iff its metadata matches the token contract's answer; and everything kept is the conversion of its event *)
+Theorem C09_pipeline_kept_plain : forall a e w, x_index e = alph_wm_event_index -> C.to_wormhole_message (x_fields e) (x_txid e) = C.COk w ->
+  xis_attest w = false -> xkeep1 a e = [ {| xu_ev := e; xu_msg := w; xu_chain := None |} ].
+Proof. exact xkeep1_fit_plain. Qed.
+
+Theorem C09_pipeline_kept_attestation : forall a e w, x_index e = alph_wm_event_index -> C.to_wormhole_message (x_fields e) (x_txid e) = C.COk w ->
+  xis_attest w = true ->
+  xkeep1 a e = match xvalidate_attest w a with XVaOk t => [ {| xu_ev := e; xu_msg := w; xu_chain := Some t |} ] | _ => [] end.
+Proof. exact xkeep1_fit_attest. Qed.
+
+Theorem C09_pipeline_kept_is_conversion : forall a e u, In u (xkeep1 a e) ->
+  xu_ev u = e /\ x_index e = alph_wm_event_index /\ C.to_wormhole_message (x_fields e) (x_txid e) = C.COk (xu_msg u).
+Proof. exact xkeep1_in. Qed.
+
+(* EXACTLY ONCE through the composition, over every error-free history (polls with well-behaved paging over the RAW stream,
+   hand-overs, ticks, re-observations, interleaved arbitrarily): the composed watcher never terminates, no step reports
+   Fatal / Spin / Panic, and the concatenation of all batches is - in order, each exactly once - the conversions of the fitting
+   events of stream[from0 .. from_final) *)
+Theorem C09_pipeline_partition_all_histories : forall c log T ops from0, 0 <= from0 <= xloglen log -> Forall (xfine log T) ops ->
+  x_dead (xfinal c (xinit from0) ops) = false /\ Forall (fun x => xo_flag x = FNone) (fst (xrun c (xinit from0) ops)) /\
+  from0 <= x_from (xfinal c (xinit from0) ops) <= xloglen log /\
+  xbatches c (xinit from0) ops = xkeep_from T from0 (gseg log from0 (Z.to_nat (x_from (xfinal c (xinit from0) ops) - from0))).
+Proof. exact pipeline_partition. Qed.
+
+(* ... and not more often than fetched: for every predicate of the abstract watcher's events *)
+Theorem C09_pipeline_forwarded_at_most_once : forall c (p : uevent -> bool) ops from0,
+  let n := fun l => length (filter (fun u => p (abs_u u)) l) in
+  (n (xtick_fwds c (xinit from0) ops) + n (xheld (xfinal c (xinit from0) ops)) <= n (xbatches c (xinit from0) ops))%nat.
+Proof. exact pipeline_at_most_once. Qed.
+
+(* the composed watcher refines model.AlphWatcher step by step, so every theorem above carries over *)
+Theorem C09_pipeline_refines_watcher : forall c s o,
+  step (abs_cfg c) (abs_state s) (abs_op o) = (abs_state (fst (xstep c s o)), abs_out (snd (xstep c s o))).
+Proof. exact sim_step. Qed.
+
+(* ---- the hypotheses are satisfiable: a concrete raw stream with boundary values *)
+Definition px_bridge : bytes := repeat x07 32.
+Definition px_c : xcfg := {| xc_gov := 10; xc_bridge := px_bridge; xc_mainnet := false |}.
+Definition px_nonce : bytes := [x00; x00; x01; x02].
+Definition px_ev (uid : Z) (fields : list C.val) : xevent :=
+  {| x_uid := uid; x_block := 5; x_txid := C.to_hex (repeat xaa 32); x_index := 0; x_fields := fields |}.
+Definition px_e1 : xevent := px_ev 1 (C.event_fields px_bridge 65535 18446744073709551615 px_nonce [x01; x09] 255).   (* every field at its upper boundary *)
+Definition px_e2 : xevent := px_ev 2 (C.event_fields px_bridge 2 8 px_nonce [x01] 256).                               (* level 256 *)
+Definition px_e3 : xevent := px_ev 3 (C.event_fields px_bridge 65536 9 px_nonce [x01] 1).                             (* target chain 65536 *)
+Definition px_e4 : xevent := px_ev 4 (C.event_fields px_bridge 2 18446744073709551616 px_nonce [x01] 1).              (* sequence 2^64 *)
+Definition px_e5 : xevent := px_ev 5 (firstn 5 (C.event_fields px_bridge 2 10 px_nonce [x01] 1)).                     (* five fields *)
+Definition px_e6 : xevent := px_ev 6 (C.event_fields (repeat x08 32) 0 11 px_nonce [] 0).                             (* foreign sender, empty payload, all zero *)
+Definition px_log : list xevent := [px_e1; px_e2; px_e3; px_e4; px_e5; px_e6].
+Definition px_T : Z -> xmc_ans := fun _ => XMcErr.
+Definition px_n (s : Z) : nat := Z.to_nat (Z.min 4 (6 - s)).
+Definition px_pg : nat -> Z -> xpage_ans := fun _ s => XPage (gseg px_log s (px_n s)) (s + Z.of_nat (px_n s)).
+Definition px_hd : Z -> option header := fun _ => Some {| h_ts := 1000; h_height := 100 |}.
+Definition px_ops : list xop :=
+  [ XPoll (Some 3) px_pg px_T; XDeliver; XPoll (Some 6) px_pg px_T; XDeliver; XTick 400 100000000 (fun _ => Some true) px_hd ].
+
+Lemma px_wb : forall count, count <= 6 -> xwb_pages px_log px_pg count.
+Proof.
+  intros count Hc k s Hs. change (xloglen px_log) with 6 in Hs. exists (px_n s). unfold px_pg, px_n. change (xloglen px_log) with 6.
+  repeat apply conj; [reflexivity|lia|lia].
+Qed.
+
+(* events 2..5 are unfit (the hypotheses of the two rejection theorems hold for them); the history is error-free; the batches are
+   [1] and [6] - nothing else is lost, nothing aborted -; the tick forwards event 1 with every value at its boundary and drops
+   the foreign event 6 *)
+Example C09_pipeline_hypotheses_satisfiable :
+  unfit px_e2 /\ unfit px_e3 /\ unfit px_e4 /\ unfit px_e5 /\
+  Forall (xfine px_log px_T) px_ops /\ 0 <= 0 <= xloglen px_log /\
+  map (fun x => (map (fun u => x_uid (xu_ev u)) (xo_batch x), xo_nreq x,
+                 map (fun f => let m := xf_pub f in (x_uid (xf_ev f), m_tchain m, m_seq m, Vaa.m_cl m)) (xo_fwd x))) (fst (xrun px_c (xinit 0) px_ops))
+  = [([1], 1%nat, []); ([], 0%nat, []); ([6], 1%nat, []); ([], 0%nat, []); ([], 0%nat, [(1, 65535, 18446744073709551615, 255)])].
+Proof.
+  split; [eapply (C09_pipeline_rejected_values_are_unfit px_e2); [reflexivity|right; right; vm_compute; intros [_ H]; discriminate H]|].
+  split; [eapply (C09_pipeline_rejected_values_are_unfit px_e3); [reflexivity|left; vm_compute; intros [_ H]; discriminate H]|].
+  split; [eapply (C09_pipeline_rejected_values_are_unfit px_e4); [reflexivity|right; left; vm_compute; intros [_ H]; discriminate H]|].
+  split; [apply C09_pipeline_wrong_count_is_unfit; vm_compute; discriminate|].
+  split; [|split; [vm_compute; split; discriminate|vm_compute; reflexivity]].
+  assert (P : forall count, count <= 6 -> xfine px_log px_T (XPoll (Some count) px_pg px_T)).
+  { intros count Hc. exists count. repeat apply conj; [reflexivity|apply px_wb; exact Hc|reflexivity]. }
+  unfold px_ops. repeat apply Forall_cons; try apply Forall_nil; try exact I; try (apply P; lia).
+  split; intros b; discriminate.
+Qed.
+
+Example C09_pipeline_transparency_instance :
+  xhandle_unconfirmed px_T 0 ([px_e1] ++ px_e2 :: [px_e6]) = XHuOk (xkeep_from px_T 0 [px_e1] ++ xkeep_from px_T 2 [px_e6]) /\
+  map (fun u => x_uid (xu_ev u)) (xkeep_from px_T 0 [px_e1] ++ xkeep_from px_T 2 [px_e6]) = [1; 6].
+Proof. split; vm_compute; reflexivity. Qed.
+
+Print Assumptions C09_pipeline_rejected_values_are_unfit.
+Print Assumptions C09_pipeline_wrong_count_is_unfit.
+Print Assumptions C09_pipeline_unfit_event_is_transparent.
+Print Assumptions C09_pipeline_page_never_aborts.
+Print Assumptions C09_pipeline_events_judged_independently.
+Print Assumptions C09_pipeline_kept_plain.
+Print Assumptions C09_pipeline_kept_attestation.
+Print Assumptions C09_pipeline_kept_is_conversion.
+Print Assumptions C09_pipeline_partition_all_histories.
+Print Assumptions C09_pipeline_forwarded_at_most_once.
+Print Assumptions C09_pipeline_refines_watcher.
